@@ -213,7 +213,45 @@ def pair_problem(base, var):
     return None
 
 
+def replay(ctx):
+    """bin/check C16 --replay file: re-run the recorded input(s) on the implementation and on the model and print both"""
+    obj = json.load(open(ctx.replay))
+    v = obj.get("violation", obj)
+    cands = []
+    for key in ("case", "base", "variant"):
+        c = v.get(key)
+        if isinstance(c, dict) and "in" in c:
+            cands.append((key, c["in"]))
+    if not cands and "failing_input" in v and isinstance(v["failing_input"], dict):
+        for key in ("case", "base", "variant"):
+            c = v["failing_input"].get(key)
+            if isinstance(c, dict) and "in" in c:
+                cands.append((key, c["in"]))
+    if not cands:
+        print("REPLAY: no input recorded in %s (%s)" % (ctx.replay, v.get("what", v.get("kind"))))
+        return
+    for key, hx in cands:
+        rows, _ = hlex(["-only", "none", "-one", hx])
+        r = rows[0]
+        vv = HEADER + "Definition R := Eval vm_compute in lex_texts %s.\nPrint R.\n" % vcheck.coq_bytes(bytes.fromhex(hx))
+        out = vcheck.coq_eval(ctx.work, "replay_c16", vv)
+        model = vcheck.norm(out.split("R =", 1)[1].split(": list", 1)[0]) if "R =" in out else out[-400:]
+        print("REPLAY %s input=%r" % (key, bytes.fromhex(hx)))
+        print("  implementation: %s closed=%s caps_equal=%s" % ([(k, bytes.fromhex(t)) for k, t in r["toks"]], r["closed"], r["caps_equal"]))
+        print("  model (Coq):    %s" % model)
+        print("  structure:      %s" % (structure_problem(r) or "ok"))
+        bad = model_mismatches(ctx, "replay_cmp", [r])
+        print("  model = implementation: %s" % ("no" if bad else "yes"))
+        if bad:
+            ctx.violation({"kind": "lexer-model-vs-real-lexer", "case": r})
+    ctx.cov["evaluations"] = len(cands)
+    ctx.cov["rule"] = "replay of a recorded case"
+
+
 def run(ctx):
+    if ctx.replay:
+        ctx.add_obligations(vcheck.coq_props("Lexer", "C16"))
+        return replay(ctx)
     # Props/C16.v is compiled concurrently with the correspondence runs (joined below)
     pool = concurrent.futures.ThreadPoolExecutor(max_workers=1)
     props = pool.submit(vcheck.coq_props, "Lexer", "C16")
